@@ -132,6 +132,10 @@ def space(tier):
     cap = 20_000 if quick else 400_000
     units = []
     pages = [0, 1, 2, 3, 10, 12, 13, 14, 16]
+    # a FIRST invocation whose payload is paginated (EXECUTION row alone, on a later page, or followed by an empty page)
+    for names in (("S",), ("W",), ("H",), ("S", "W"), ("C",)):
+        units.append(({"program": program(names), "cfg": {"env_kinds": ["page"], "first_page_modes": [0, 3, 6, 1], "page_modes": [0, 1]}},
+                      {"page": 2, "total": 2}, cap))
     for p in programs(tier):
         n = len(p["meta"]["units"])
         if n == 1 or (n == 2 and True):
@@ -149,4 +153,4 @@ simcheck.install(globals(), "C17", [judge], space,
                  "(quick) / all (thorough), length 4 over 4 kinds (thorough); a log call before, between and after the units "
                  "and inside every step/check/submitter body; histories: every suspension point and every single crash point "
                  "(length <=2), every pagination split (first page = 0..6 rows or EXECUTION only / +1, later pages of 1, 2 "
-                 "or all)")
+                 "or all); five programs whose FIRST invocation receives a paginated payload (empty first page, or a trailing empty page)")
